@@ -80,6 +80,19 @@ var c03G *G
 
 func c03Exec(op []string) string {
 	out := c03Exec1(op)
+	if op[0] == "c03.mix" {
+		// per step: which side, accepted or which refusal class
+		if outs := strings.Split(out, " ; "); len(outs) == len(op)-2 {
+			for i, o := range outs {
+				k := "ok"
+				if strings.HasPrefix(o, "err:") || strings.HasPrefix(o, "panic:") {
+					k = o
+				}
+				c03Kinds["c03.mix step "+strings.SplitN(op[2+i], ",", 2)[0]+" "+k]++
+			}
+		}
+		return out
+	}
 	k := out
 	if i := strings.Index(k, " ok "); i >= 0 {
 		k = "ok"
